@@ -77,21 +77,25 @@ fn one(src: &str, stream: &str) -> Option<Case> {
     // --- implementation-side facts handed to the oracle
     let f1c = f1.clone();
     let re = std::panic::catch_unwind(move || RoocParser::new(f1c).parse());
-    let (after, idem) = match re {
+    let values_before = opaque_values(&pm);
+    let (after, idem, graphs) = match re {
         Ok(Ok(pm2)) => {
             let f2 = pm2.to_string();
-            (syntax::pre_model(&pm2), f2 == f1)
+            // the VALUE of every graph / array literal (not its display) before and after
+            let g = if values_before.is_empty() { "graphs-none" } else if opaque_values(&pm2) == values_before { "graphs-same" } else { "graphs-differ" };
+            (syntax::pre_model(&pm2), f2 == f1, g)
         }
-        Ok(Err(_)) => ("reject".to_string(), false),
-        Err(_) => ("panic".to_string(), false),
+        Ok(Err(_)) => ("reject".to_string(), false, "graphs-none"),
+        Err(_) => ("panic".to_string(), false, "graphs-none"),
     };
+    if graphs != "graphs-none" { c.tags.push(format!("literal-values:{}", graphs)); }
     let models = match (compile(src), if after == "reject" || after == "panic" { Err("unparsed".into()) } else { compile(&f1) }) {
         (Ok(a), Ok(b)) => { c.tags.push("compiles".into()); if a == b { "same" } else { "differ" } }
         (Ok(_), Err(_)) => { c.tags.push("compiles".into()); "broke" }
         (Err(_), Ok(_)) => { c.tags.push("not-compiling".into()); "repaired" }
         (Err(_), Err(_)) => { c.tags.push("not-compiling".into()); "na" }
     };
-    c.oracle = format!("check-format {} {} {} {}", before, after, idem, models);
+    c.oracle = format!("check-format {} {} {} {} {}", before, after, idem, models, graphs);
     // features of the tree, for the distribution
     for (k, t) in [("(bin ", "binary"), ("(un ", "unary"), ("(cvar ", "compound-var"), ("(access ", "array-access"), ("(call ", "call"),
                    ("(block ", "block-fn"), ("(scoped ", "scoped-fn"), ("(let ", "constants"), ("(dom ", "domains"), ("(it ", "iteration"),
@@ -141,6 +145,42 @@ fn numbers_of(e: &rooc::PreExp, out: &mut Vec<f64>) {
         Variable(_) => {}
     }
 }
+/// Debug form (= structural value: nodes, edges, costs bit for bit as Rust writes an f64) of every graph / array
+/// primitive of an expression, in order
+fn opaque_of(e: &rooc::PreExp, out: &mut Vec<String>) {
+    use rooc::PreExp::*;
+    match e {
+        Primitive(p) => match p.value() {
+            rooc::Primitive::Graph(_) | rooc::Primitive::Iterable(_) | rooc::Primitive::Tuple(_) | rooc::Primitive::GraphEdge(_) | rooc::Primitive::GraphNode(_) => out.push(format!("{:?}", p.value())),
+            _ => {}
+        },
+        BinaryOperation(_, l, r) => { opaque_of(l, out); opaque_of(r, out) }
+        UnaryOperation(_, x) => opaque_of(x, out),
+        FunctionCall(_, f) => f.args.iter().for_each(|a| opaque_of(a, out)),
+        BlockFunction(b) => b.exps.iter().for_each(|a| opaque_of(a, out)),
+        BlockScopedFunction(b) => { b.iters.iter().for_each(|i| opaque_of(i.iterator.value(), out)); opaque_of(&b.exp, out) }
+        CompoundVariable(c) => c.indexes.iter().for_each(|a| opaque_of(a, out)),
+        ArrayAccess(a) => a.accesses.iter().for_each(|a| opaque_of(a, out)),
+        Variable(_) => {}
+    }
+}
+fn opaque_values(pm: &rooc::pre_model::PreModel) -> Vec<String> {
+    use rooc::math_enums::PreVariableType as V;
+    let mut out = vec![];
+    opaque_of(&pm.objective().rhs, &mut out);
+    for k in pm.constraints() { opaque_of(&k.lhs, &mut out); opaque_of(&k.rhs, &mut out); k.iteration.iter().for_each(|i| opaque_of(i.iterator.value(), &mut out)); }
+    for k in pm.constants() { opaque_of(&k.value, &mut out); }
+    for d in pm.domains() {
+        match d.get_type() {
+            V::Boolean => {}
+            V::NonNegativeReal(a, b) | V::Real(a, b) => { if let Some(a) = a { opaque_of(a, &mut out) } if let Some(b) = b { opaque_of(b, &mut out) } }
+            V::IntegerRange(a, b) => { opaque_of(a, &mut out); opaque_of(b, &mut out) }
+        }
+        d.iteration().iter().for_each(|i| opaque_of(i.iterator.value(), &mut out));
+    }
+    out
+}
+
 /// every `Primitive::Number` literal of a parsed program (objective, constraints, constants, domain bounds, iterators)
 fn number_literals(pm: &rooc::pre_model::PreModel, out: &mut Vec<f64>) {
     use rooc::math_enums::PreVariableType as V;
@@ -399,6 +439,34 @@ pub fn generate(seed: u64, n: usize, thorough: bool, corpus: Option<&str>) -> Ve
     }
     for d in ["let r = range(0, 3, false)", "let r = range(0, 3, true)", "let r = union(range(0, 2, false), [5, 6])"] {
         push(format!("min y\ns.t.\n    y >= len(r)\n    y >= sum(i in r) {{ i }}\nwhere\n    {}\ndefine\n    y as Real\n", d), "printer-edges", &mut cases);
+    }
+
+    // --- one-sided domain bounds: a declaration with exactly ONE bound (`Real(lo)`, `NonNegativeReal(lo)`) is printed with the
+    //     default of the missing one (`Real(lo, Infinity)`); the given bound must survive (PreModel up to `canon`, compiled model)
+    for lo in ["2", "0 - 3", "1.5", "n", "2 * (n + 1)", "len(v)", "0", "9223372036854775807", "0.000001", "-4", "min { n, 3 }", "sum(i in 0..n) { i }"] {
+        for ty in ["Real", "NonNegativeReal"] {
+            push(format!("min x + y\ns.t.\n    x + y >= 1\nwhere\n    let n = 2\n    let v = [1, 2, 3]\ndefine\n    x as {}({})\n    y as {}\n", ty, lo, ty), "one-sided-bounds", &mut cases);
+            push(format!("max x_0 - x_1\ns.t.\n    x_i <= 10 for i in 0..2\nwhere\n    let n = 2\n    let v = [1, 2, 3]\ndefine\n    x_i as {}({}) for i in 0..2\n", ty, lo), "one-sided-bounds", &mut cases);
+            push(format!("min x + y + z\ns.t.\n    x + y + z >= 1\nwhere\n    let n = 2\n    let v = [1, 2, 3]\ndefine\n    x, y as {}({})\n    z as {}({}, 100)\n", ty, lo, ty, lo), "one-sided-bounds", &mut cases);
+        }
+    }
+    // --- graph literals: edge lists with costs 0, negative, fractional, large, and missing (default cost 1); the cost is
+    //     USED by the program, and the graph VALUE of parse(format(s)) is compared with that of parse(s)
+    for body in ["A -> [B: 0], B", "A -> [B: 0, C: -2, D: 1.5, E], B -> [A], C, D, E", "A -> [B], B -> [A: 0]", "A -> [B: -0.5, C: 0.0], B, C",
+                 "A -> [B: 1, C: 1.0], B -> [C: 100000000000000000000], C", "A -> [B: 0.000001], B -> [A: -0], C", "A, B, C", "A -> [A: 0]",
+                 "A -> [B: 2, C], B -> [C: 0, A: 3], C -> [A: -1]", "A -> [], B", "A -> [B: 9007199254740993], B", ""] {
+        for g in [format!("Graph {{ {} }}", body), format!("Graph {{\n        {}\n    }}", body.replace(", ", ",\n        "))] {
+            push(format!("min sum((u, v, c) in edges(G)) {{ c * x_u_v }}\ns.t.\n    x_u_v >= 1 for (u, v) in edges(G)\nwhere\n    let G = {}\ndefine\n    x_u_v as Real for (u, v) in edges(G)\n", g), "graph-literals", &mut cases);
+            push(format!("max y\ns.t.\n    y <= sum((u, v, c) in edges(G)) {{ c }} + len(nodes(G))\n    y <= sum(e in neigh_edges_of(\"A\", G)) {{ 1 }}\nwhere\n    let G = {}\ndefine\n    y as Real\n", g), "graph-literals", &mut cases);
+        }
+    }
+    // --- a compound variable whose index is a variable that starts with an underscore (`x_{_i}`): printed bare it would be
+    //     read as the literal name fragment `_i`
+    for (obj, con, dom) in [("sum(_i in 0..3) { x_{_i} }", "x_{_i} >= 1 for _i in 0..3", "x_{_i} as Real for _i in 0..3"),
+                            ("sum(_i in 0..2, j in 0..2) { x_{_i}_j }", "x_{_i}_j >= _i + j for _i in 0..2, j in 0..2", "x_{_i}_j as Real for _i in 0..2, j in 0..2"),
+                            ("sum(__k in 0..2) { 2 x_1_{__k} }", "c_{__k}: x_1_{__k} >= 1 for __k in 0..2", "x_1_{__k} as NonNegativeReal for __k in 0..2"),
+                            ("x__1 + x_i", "x__1 >= 1", "x__1, x_i as Real")] {
+        push(format!("min {}\ns.t.\n    {}\nwhere\n    let i = 0\ndefine\n    {}\n", obj, con, dom), "printer-edges", &mut cases);
     }
 
     // --- MALFORMED programs, by class: every error of the AST builders at every position of a program, pairs of errors
